@@ -54,7 +54,7 @@ def main():
         i += 1
     seeds = sorted(x for x in os.listdir(os.path.join(ROOT, "seeded")) if os.path.exists(os.path.join(ROOT, "seeded", x, "meta.json")))
     if rnd is not None:
-        seeds = [x for x in seeds if {"a": 1, "b": 1, "c": 2, "d": 2, "e": 3, "f": 3, "g": 4, "h": 4, "i": 5, "j": 5, "k": 6, "l": 6}.get(x[-1]) == rnd]
+        seeds = [x for x in seeds if {"a": 1, "b": 1, "c": 2, "d": 2, "e": 3, "f": 3, "g": 4, "h": 4, "i": 5, "j": 5, "k": 6, "l": 6, "m": 7, "n": 7}.get(x[-1]) == rnd]
     if only:
         seeds = [x for x in seeds if x in only]
     missed = []
